@@ -27,6 +27,7 @@ import (
 	"strconv"
 	"strings"
 	"sync"
+	"time"
 
 	"github.com/google/trillian"
 	"github.com/google/trillian/types"
@@ -227,6 +228,7 @@ type World struct {
 	consBad     bool // an invalid one was
 	maxVerified int  // largest STH size of a pass that passed the gate
 	quotaOpen   map[string]int // batch key -> ResourceExhausted replies not yet followed by a retry
+	quotaAt     map[string]time.Time
 	quotaSeen   int
 	passTerminal bool // a fault that legitimately ends the current pass was injected (fatal code, cancel, revoked mastership, failed root/sth/cons)
 	anyTerminal  bool // ... in any pass
@@ -240,7 +242,7 @@ type World struct {
 func NewWorld(p *Pool, c Cfg, f Faults, rec *vh.Recorder, rep *vh.Report, t int) *World {
 	f.init()
 	w := &World{P: p, C: c, F: f, Rec: rec, Rep: rep, T: t, srcSize: c.Src0, dest: map[int64]*stored{}, destInt: c.DestInt,
-		master: true, mwait: make(chan struct{}), sthSize: -1, quotaOpen: map[string]int{}, kinds: map[string]bool{}}
+		master: true, mwait: make(chan struct{}), sthSize: -1, quotaOpen: map[string]int{}, quotaAt: map[string]time.Time{}, kinds: map[string]bool{}}
 	close(w.mwait)
 	for i := 0; i < c.DestLen; i++ {
 		e := w.entry("H", i)
@@ -582,12 +584,16 @@ func (b *Backend) AddSequencedLeaves(ctx context.Context, in *trillian.AddSequen
 	leaves := w.judge(in.Leaves)
 	if w.quotaOpen[bkey] > 0 {
 		w.quotaOpen[bkey]-- // this is the retry of a batch that had been refused for quota
+		if !time.Now().After(w.quotaAt[bkey]) { // virtual time (synctest): a retry "with back-off" comes later, not at once
+			w.Rep.Violate("quota:retried-without-delay", "a batch answered ResourceExhausted was retried without any delay", w.ctxt())
+		}
 		w.kinds["add:retried"] = true
 	}
 	if c, ok := pop(w.F.Add, key); ok && c != "OK" {
 		code := codeByName(c)
 		if code == codes.ResourceExhausted {
 			w.quotaOpen[bkey]++
+			w.quotaAt[bkey] = time.Now()
 			w.quotaSeen++
 			w.kinds["add:quota"] = true
 		} else {
